@@ -1,6 +1,7 @@
 package qids
 
 import (
+	"sync"
 	"sync/atomic"
 
 	"github.com/hugelgupf/p9/p9"
@@ -27,7 +28,11 @@ func (g *PathGenerator) NewPath() uint64 {
 }
 
 type Mapper struct {
-	g     *PathGenerator
+	g *PathGenerator
+
+	// mu protects paths: QIDFor is reached from File methods that the
+	// server calls concurrently.
+	mu    sync.Mutex
 	paths map[uint64]uint64
 }
 
@@ -38,6 +43,9 @@ func NewMapper(g *PathGenerator) *Mapper {
 }
 
 func (m *Mapper) QIDFor(q p9.QID) p9.QID {
+	m.mu.Lock()
+	defer m.mu.Unlock()
+
 	if path, ok := m.paths[q.Path]; ok {
 		return p9.QID{
 			Type:    q.Type,
